@@ -906,3 +906,555 @@ Lemma had_err_since_parsed_lemma : forall n errst msgs (tx distance : Z),
 Proof.
   intros. apply had_err_since_spec_lemma. apply errors_desc_sorted_lemma.
 Qed.
+
+(* ================================================================== several clients *)
+
+Lemma go_search_bounds : forall fuel f i j,
+  i <= j -> i <= go_search fuel f i j /\ go_search fuel f i j <= j.
+Proof.
+  induction fuel as [|fu IH]; intros f i j H; cbn [go_search]; [lia|].
+  destruct (Nat.ltb i j) eqn:E; [|lia].
+  apply Nat.ltb_lt in E.
+  assert (Hh : i <= Nat.div2 (i + j) /\ Nat.div2 (i + j) < j).
+  { rewrite Nat.div2_div. split.
+    - apply Nat.div_le_lower_bound; lia.
+    - apply Nat.div_lt_upper_bound; lia. }
+  destruct (f (Nat.div2 (i + j))).
+  - destruct (IH f i (Nat.div2 (i + j))); lia.
+  - destruct (IH f (S (Nat.div2 (i + j))) j); lia.
+Qed.
+
+Lemma tx_at_htime_range : forall msgs t,
+  (msgs = [] /\ tx_at_htime msgs t = (-1)%Z) \/
+  (msgs <> [] /\ (0 <= tx_at_htime msgs t < Z.of_nat (length msgs))%Z).
+Proof.
+  intros msgs t. destruct msgs as [|m r]; [left; split; reflexivity|right].
+  split; [discriminate|]. unfold tx_at_htime. cbv zeta.
+  remember (m :: r) as L eqn:EL.
+  assert (Hl : length L <> 0) by (subst L; cbn [length]; lia).
+  destruct (Nat.eqb (length L) 0) eqn:E0; [apply Nat.eqb_eq in E0; contradiction|].
+  set (i := sort_search (length L) (fun i => N.leb t (m_htime (nth i L dmsg)))).
+  assert (Hi : i <= length L).
+  { unfold i, sort_search. destruct (go_search_bounds (S (length L))
+      (fun i => N.leb t (m_htime (nth i L dmsg))) 0 (length L)); lia. }
+  destruct (Nat.eqb i (length L)) eqn:E1.
+  - apply Nat.eqb_eq in E1. lia.
+  - apply Nat.eqb_neq in E1. lia.
+Qed.
+
+(* the cursor a client switch leaves: no record, or (when listing is in
+   force) a listed one *)
+Lemma select_cursor_ok_lemma : forall active filtered msgs cur last,
+  cursor_in_range (length msgs) cur = true ->
+  cursor_ok active filtered (length msgs) (select_cursor active filtered msgs cur last) = true.
+Proof.
+  intros active filtered msgs cur last Hr.
+  unfold cursor_in_range in Hr. apply andb_true_iff in Hr. destruct Hr as [H1 H2].
+  apply Z.leb_le in H1. apply Z.leb_le in H2.
+  unfold select_cursor. cbv zeta.
+  destruct (tx_at_htime_range msgs last) as [[He Hi]|[Hne Hi]].
+  - rewrite Hi. cbn [Z.eqb]. subst msgs. cbn [length] in *. destruct active.
+    + apply filter_cursor_ok; cbn; lia.
+    + unfold filter_cursor. cbn [negb]. apply cursor_ok_iff. split; [cbn; lia|left; reflexivity].
+  - destruct (Z.eqb (tx_at_htime msgs last) (-1)) eqn:E; [apply Z.eqb_eq in E; lia|].
+    destruct active.
+    + pose proof (filter_cursor_ok filtered (length msgs) cur (tx_at_htime msgs last) true
+                    ltac:(lia) ltac:(cbn; lia)) as A.
+      apply cursor_ok_iff in A. destruct A as [A _].
+      set (c1 := filter_cursor true filtered (length msgs) cur (tx_at_htime msgs last) true) in *.
+      apply filter_cursor_ok; [lia|]. cbv iota. lia.
+    + unfold filter_cursor. cbn [negb]. apply cursor_ok_iff. split; [lia|left; reflexivity].
+Qed.
+
+(* a cursor that rests on a listed record of a recomputed list shows a
+   matching record *)
+Lemma listed_matches : forall f health ms ps c,
+  cursor_ok true (filter_client_txs f health ms ps) (length ms) c = true ->
+  shown_matches f health ms ps c = true.
+Proof.
+  intros f health ms ps c H. apply cursor_ok_iff in H. destruct H as [Hrange [H|[H|H]]]; [discriminate| |].
+  - rewrite H. reflexivity.
+  - unfold shown_matches. apply orb_true_iff.
+    destruct (Z.leb c 0) eqn:E; [left; reflexivity|right].
+    unfold sk, is_skipped in H. cbn [andb] in H. apply Z.eqb_neq in H.
+    apply index_of_In in H. destruct H as [_ Hin]. unfold filter_client_txs in Hin.
+    apply filter_In in Hin. destruct Hin as [_ Hf]. rewrite <- filter_tx_matches. exact Hf.
+Qed.
+
+Lemma select_cursor_shown_lemma : forall f health msgs ps cur last,
+  cursor_in_range (length msgs) cur = true ->
+  let fl := filter_client_txs f health msgs ps in
+  let cu := select_cursor true fl msgs cur last in
+  cursor_ok true fl (length msgs) cu = true /\ shown_matches f health msgs ps cu = true.
+Proof.
+  intros f health msgs ps cur last Hr. cbv zeta.
+  pose proof (select_cursor_ok_lemma true (filter_client_txs f health msgs ps) msgs cur last Hr) as H.
+  split; [exact H|]. apply listed_matches. exact H.
+Qed.
+
+(* ---- the state of two clients along a history *)
+
+Lemma get_set_same : forall d w c, get_client (set_client d w c) w = c.
+Proof. intros d w c. destruct w; reflexivity. Qed.
+
+Lemma get_set_other : forall d w c, get_client (set_client d w c) (negb w) = get_client d (negb w).
+Proof. intros d w c. destruct w; reflexivity. Qed.
+
+Lemma on_selected_spec : forall h d f' c moved,
+  let cl := sel_client d in
+  let r := nav_step (d_flags d) f' (group_any f') h (c_msgs cl) (c_parsed cl) (c_filtered cl)
+                    (c_cursor cl) c in
+  let d' := on_selected h d f' c moved in
+  d_sel d' = d_sel d /\ d_flags d' = f' /\
+  sel_client d' = mkClient (c_msgs cl) (c_parsed cl) (fst r) (snd r) /\
+  get_client d' (negb (d_sel d)) = get_client d (negb (d_sel d)).
+Proof.
+  intros h d f' c moved. cbv zeta. unfold on_selected.
+  destruct (nav_step (d_flags d) f' (group_any f') h (c_msgs (sel_client d)) (c_parsed (sel_client d))
+              (c_filtered (sel_client d)) (c_cursor (sel_client d)) c) as [fl cu].
+  destruct d as [s a b f l]. destruct s; cbn; repeat split; reflexivity.
+Qed.
+
+Lemma nav_step_filtered : forall fprev f active h msgs ps fl cur c,
+  fst (nav_step fprev f active h msgs ps fl cur c) =
+  match c with
+  | NRefilter => if active || group_any (refilter_flags fprev f)
+                 then filter_client_txs (refilter_flags fprev f) h msgs ps else fl
+  | _ => fl
+  end.
+Proof.
+  intros. destruct c; cbn [nav_step]; cbv zeta.
+  - destruct (Z.leb _ _); reflexivity.
+  - destruct (Z.leb _ _); reflexivity.
+  - destruct (_ && _); reflexivity.
+  - destruct (Z.ltb _ _); reflexivity.
+  - reflexivity.
+Qed.
+
+Lemma refilter_flags_same : forall f, refilter_flags f f = f.
+Proof.
+  intros f. unfold refilter_flags.
+  destruct (f_canceled f), (f_queued f); cbn [andb orb negb]; reflexivity.
+Qed.
+
+Lemma plain_refilter : forall a b, plain_toggle a b = true -> refilter_flags a b = b.
+Proof.
+  intros a b H. unfold plain_toggle in H. unfold refilter_flags.
+  destruct (f_canceled a && negb (f_canceled b)); [discriminate|].
+  destruct (f_queued a && negb (f_queued b)); [discriminate|]. reflexivity.
+Qed.
+
+(* one event: what it does to a client's records and to the flags *)
+Definition ev_arrived (w : bool) (e : event) : list (msg * parsed) :=
+  match e with
+  | EArrive w' m p => if Bool.eqb w' w then [(m, p)] else []
+  | _ => []
+  end.
+
+Definition ev_flags (f : filters) (e : event) : filters :=
+  match e with EToggle f' => f' | _ => f end.
+
+Lemma step_flags : forall h d e, d_flags (dbg_step h d e) = ev_flags (d_flags d) e.
+Proof.
+  intros h d e. destruct e as [w m p|f'|w|c]; cbn [dbg_step ev_flags].
+  - destruct d as [s a b f l]. destruct w; reflexivity.
+  - apply (on_selected_spec h d f' NRefilter true).
+  - destruct (Bool.eqb w (d_sel d)); reflexivity.
+  - apply (on_selected_spec h d (d_flags d) c).
+Qed.
+
+Lemma step_records : forall h d e w,
+  c_msgs (get_client (dbg_step h d e) w) = c_msgs (get_client d w) ++ map fst (ev_arrived w e) /\
+  c_parsed (get_client (dbg_step h d e) w) = c_parsed (get_client d w) ++ map snd (ev_arrived w e).
+Proof.
+  intros h d e w.
+  assert (Hsel : forall f' c moved,
+            c_msgs (get_client (on_selected h d f' c moved) w) = c_msgs (get_client d w) /\
+            c_parsed (get_client (on_selected h d f' c moved) w) = c_parsed (get_client d w)).
+  { intros f' c moved. pose proof (on_selected_spec h d f' c moved) as S. cbv zeta in S.
+    destruct S as (S1 & _ & S3 & S4).
+    destruct (Bool.eqb w (d_sel d)) eqn:E.
+    - apply eqb_prop in E. subst w. unfold sel_client in S3. rewrite S1 in S3. rewrite S3.
+      cbn [c_msgs c_parsed]. split; reflexivity.
+    - assert (w = negb (d_sel d)) by (destruct w, (d_sel d); cbn in E; try discriminate; reflexivity).
+      subst w. rewrite S4. split; reflexivity. }
+  destruct e as [w' m p|f'|w'|c]; cbn [dbg_step ev_arrived map]; rewrite ?app_nil_r.
+  - destruct (Bool.eqb w' w) eqn:E.
+    + apply eqb_prop in E. subst w'. rewrite get_set_same. cbn [arrive c_msgs c_parsed map fst snd].
+      split; reflexivity.
+    + assert (w = negb w') by (destruct w, w'; cbn in E; try discriminate; reflexivity).
+      subst w. rewrite get_set_other. cbn [map]. rewrite !app_nil_r. split; reflexivity.
+  - apply Hsel.
+  - destruct (Bool.eqb w' (d_sel d)) eqn:E; [split; reflexivity|].
+    destruct d as [s a b f l]. cbn [d_sel d_a d_b d_flags d_last get_client] in *.
+    destruct w', s; cbn in E; try discriminate; destruct w; cbn; split; reflexivity.
+  - apply Hsel.
+Qed.
+
+Lemma arrived_cons : forall w e r, arrived w (e :: r) = ev_arrived w e ++ arrived w r.
+Proof. intros. unfold arrived. cbn [flat_map]. destruct e; reflexivity. Qed.
+
+Lemma flags_after_cons : forall f e r, flags_after f (e :: r) = flags_after (ev_flags f e) r.
+Proof. intros. unfold flags_after. cbn [fold_left]. destruct e; reflexivity. Qed.
+
+Lemma run_flags : forall h evs d, d_flags (run_events h d evs) = flags_after (d_flags d) evs.
+Proof.
+  intros h. induction evs as [|e r IH]; intros d; [reflexivity|].
+  unfold run_events in *. cbn [fold_left]. rewrite IH, step_flags, flags_after_cons. reflexivity.
+Qed.
+
+Lemma run_records : forall h evs d w,
+  c_msgs (get_client (run_events h d evs) w) = c_msgs (get_client d w) ++ map fst (arrived w evs) /\
+  c_parsed (get_client (run_events h d evs) w) = c_parsed (get_client d w) ++ map snd (arrived w evs).
+Proof.
+  intros h. induction evs as [|e r IH]; intros d w.
+  - cbn. rewrite !app_nil_r. split; reflexivity.
+  - unfold run_events in *. cbn [fold_left]. destruct (IH (dbg_step h d e) w) as [A B].
+    destruct (step_records h d e w) as [C D].
+    rewrite A, B, C, D, arrived_cons, !map_app, !app_assoc. split; reflexivity.
+Qed.
+
+(* after ANY history, selecting the other client leaves exactly the records
+   of that client that pass the flags of that moment *)
+Lemma select_view_lemma : forall health f0 evs who,
+  let d := run_events health (dbg_init f0) evs in
+  d_sel d <> who ->
+  group_any (flags_after f0 evs) = true ->
+  let d' := dbg_step health d (ESelect who) in
+  d_sel d' = who /\
+  d_flags d' = flags_after f0 evs /\
+  c_filtered (sel_client d') =
+    filter_client_txs (flags_after f0 evs) health (map fst (arrived who evs)) (map snd (arrived who evs)).
+Proof.
+  intros health f0 evs who. cbv zeta. intros Hsel Hact.
+  pose proof (run_flags health evs (dbg_init f0)) as Hf. cbn [dbg_init d_flags] in Hf.
+  destruct (run_records health evs (dbg_init f0) who) as [Hm Hp].
+  replace (c_msgs (get_client (dbg_init f0) who)) with (@nil msg) in Hm by (destruct who; reflexivity).
+  replace (c_parsed (get_client (dbg_init f0) who)) with (@nil parsed) in Hp by (destruct who; reflexivity).
+  cbn [app] in Hm, Hp.
+  set (d := run_events health (dbg_init f0) evs) in *.
+  cbn [dbg_step].
+  destruct (Bool.eqb who (d_sel d)) eqn:E; [apply eqb_prop in E; congruence|].
+  rewrite Hf, Hact.
+  split; [reflexivity|]. split; [reflexivity|].
+  unfold sel_client. cbn [d_sel]. rewrite <- Hm, <- Hp.
+  destruct who; cbn [get_client set_client d_a d_b d_sel c_filtered]; destruct (d_sel d); reflexivity.
+Qed.
+
+(* ---- the view along a tame history *)
+
+Lemma filter_tx_snoc : forall f h ms ps m p i,
+  f_autocanceled f = false -> length ps = length ms -> i < length ms ->
+  filter_tx f h (ms ++ [m]) (ps ++ [p]) i = filter_tx f h ms ps i.
+Proof.
+  intros f h ms ps m p i Hf Hl Hi. unfold filter_tx. cbv zeta.
+  rewrite Hf. cbn [andb]. rewrite !app_nth1 by lia. reflexivity.
+Qed.
+
+Lemma filter_client_snoc : forall f h ms ps m p,
+  f_autocanceled f = false -> length ps = length ms ->
+  filter_client_txs f h (ms ++ [m]) (ps ++ [p]) =
+  filter_client_txs f h ms ps ++
+  (if filter_tx f h (ms ++ [m]) (ps ++ [p]) (length ms) then [length ms] else []).
+Proof.
+  intros f h ms ps m p Hf Hl. unfold filter_client_txs.
+  rewrite app_length. cbn [length]. rewrite Nat.add_1_r, seq_S. cbn [plus].
+  rewrite filter_app. f_equal; try (cbn [filter]; reflexivity).
+  apply filter_ext_in. intros i Hi. apply in_seq in Hi. apply filter_tx_snoc; [assumption|assumption|lia].
+Qed.
+
+Definition view_inv (h : list nat) (d : dbg) : Prop :=
+  length (c_parsed (d_a d)) = length (c_msgs (d_a d)) /\
+  length (c_parsed (d_b d)) = length (c_msgs (d_b d)) /\
+  (group_any (d_flags d) = true ->
+   c_filtered (sel_client d) =
+     filter_client_txs (d_flags d) h (c_msgs (sel_client d)) (c_parsed (sel_client d))).
+
+Definition tame_step (f : filters) (e : event) : bool :=
+  match e with
+  | EArrive _ _ _ => negb (f_autocanceled f)
+  | EToggle f' => plain_toggle f f'
+  | _ => true
+  end.
+
+Lemma tame_events_cons : forall f e r,
+  tame_events f (e :: r) = tame_step f e && tame_events (ev_flags f e) r.
+Proof. intros f e r. destruct e; reflexivity. Qed.
+
+Lemma lengths_of : forall d,
+  length (c_parsed (d_a d)) = length (c_msgs (d_a d)) ->
+  length (c_parsed (d_b d)) = length (c_msgs (d_b d)) ->
+  forall w, length (c_parsed (get_client d w)) = length (c_msgs (get_client d w)).
+Proof. intros d A B w. destruct w; assumption. Qed.
+
+Lemma lengths_from : forall d,
+  (forall w, length (c_parsed (get_client d w)) = length (c_msgs (get_client d w))) ->
+  length (c_parsed (d_a d)) = length (c_msgs (d_a d)) /\
+  length (c_parsed (d_b d)) = length (c_msgs (d_b d)).
+Proof. intros d H. split; [apply (H false)|apply (H true)]. Qed.
+
+Lemma on_selected_inv : forall h d f' c moved,
+  view_inv h d ->
+  (c = NRefilter -> refilter_flags (d_flags d) f' = f') ->
+  (c <> NRefilter -> f' = d_flags d) ->
+  view_inv h (on_selected h d f' c moved).
+Proof.
+  intros h d f' c moved (La & Lb & Hv) Hre Hnav.
+  pose proof (on_selected_spec h d f' c moved) as S. cbv zeta in S.
+  destruct S as (S1 & S2 & S3 & S4).
+  pose proof (lengths_of d La Lb) as L.
+  set (d' := on_selected h d f' c moved) in *.
+  assert (L' : forall w, length (c_parsed (get_client d' w)) = length (c_msgs (get_client d' w))).
+  { intros w. destruct (Bool.eqb w (d_sel d)) eqn:E.
+    - apply eqb_prop in E. subst w. unfold sel_client in S3. rewrite S1 in S3. rewrite S3.
+      cbn [c_msgs c_parsed]. apply L.
+    - assert (w = negb (d_sel d)) by (destruct w, (d_sel d); cbn in E; try discriminate; reflexivity).
+      subst w. rewrite S4. apply L. }
+  destruct (lengths_from d' L') as [La' Lb'].
+  split; [exact La'|]. split; [exact Lb'|].
+  intros Hact. rewrite S3. cbn [c_filtered c_msgs c_parsed]. rewrite S2 in *.
+  rewrite nav_step_filtered.
+  destruct c as [a|a|c1|id|].
+  1-4: (rewrite (Hnav ltac:(discriminate)) in *; apply Hv; exact Hact).
+  rewrite (Hre eq_refl). rewrite Hact. rewrite orb_true_r. reflexivity.
+Qed.
+
+Lemma step_inv : forall h d e,
+  view_inv h d -> tame_step (d_flags d) e = true -> view_inv h (dbg_step h d e).
+Proof.
+  intros h d e Hinv Ht. destruct e as [w m p|f'|w|c]; cbn [dbg_step tame_step] in *.
+  - (* a message arrives *)
+    destruct Hinv as (La & Lb & Hv). apply negb_true_iff in Ht.
+    pose proof (lengths_of d La Lb) as L.
+    set (cl' := arrive (d_flags d) h (get_client d w) m p).
+    assert (Lc : length (c_parsed cl') = length (c_msgs cl')).
+    { unfold cl', arrive. cbn [c_parsed c_msgs]. rewrite !app_length, (L w). reflexivity. }
+    assert (L' : forall w', length (c_parsed (get_client (set_client d w cl') w')) =
+                            length (c_msgs (get_client (set_client d w cl') w'))).
+    { intros w'. destruct (Bool.eqb w' w) eqn:E.
+      - apply eqb_prop in E. subst w'. rewrite get_set_same. exact Lc.
+      - assert (w' = negb w) by (destruct w, w'; cbn in E; try discriminate; reflexivity).
+        subst w'. rewrite get_set_other. apply L. }
+    destruct (lengths_from _ L') as [La' Lb'].
+    split; [exact La'|]. split; [exact Lb'|].
+    assert (Hfl : d_flags (set_client d w cl') = d_flags d) by (destruct d, w; reflexivity).
+    assert (Hs : d_sel (set_client d w cl') = d_sel d) by (destruct d, w; reflexivity).
+    rewrite Hfl. intros Hact. unfold sel_client. rewrite Hs.
+    destruct (Bool.eqb (d_sel d) w) eqn:E.
+    + apply eqb_prop in E. rewrite E. rewrite get_set_same.
+      unfold cl', arrive. cbn [c_filtered c_msgs c_parsed].
+      rewrite filter_client_snoc by (try assumption; apply L).
+      specialize (Hv Hact). unfold sel_client in Hv. rewrite E in Hv. rewrite <- Hv.
+      destruct (filter_tx _ _ _ _ _); [reflexivity|rewrite app_nil_r; reflexivity].
+    + assert (d_sel d = negb w) by (destruct w, (d_sel d); cbn in E; try discriminate; reflexivity).
+      rewrite H. rewrite get_set_other. rewrite <- H. apply Hv. exact Hact.
+  - (* a plain toggle *)
+    apply on_selected_inv; [exact Hinv| |].
+    + intros _. apply plain_refilter. exact Ht.
+    + intros H. contradiction H. reflexivity.
+  - (* a client switch *)
+    destruct (Bool.eqb w (d_sel d)) eqn:E; [exact Hinv|].
+    destruct Hinv as (La & Lb & Hv).
+    pose proof (lengths_of d La Lb) as L.
+    destruct d as [s a b f l]. cbn [d_sel d_a d_b d_flags d_last get_client set_client] in *.
+    unfold view_inv, sel_client.
+    destruct w, s; cbn in E; try discriminate;
+      cbn [d_sel d_a d_b d_flags get_client set_client c_msgs c_parsed c_filtered];
+      (split; [assumption|]); (split; [assumption|]); intros Hact; rewrite Hact; reflexivity.
+  - (* a cursor command *)
+    apply on_selected_inv; [exact Hinv| |].
+    + intros _. apply refilter_flags_same.
+    + intros _. reflexivity.
+Qed.
+
+Lemma run_inv : forall h evs d,
+  view_inv h d -> tame_events (d_flags d) evs = true -> view_inv h (run_events h d evs).
+Proof.
+  intros h. induction evs as [|e r IH]; intros d Hinv Ht; [exact Hinv|].
+  rewrite tame_events_cons in Ht. apply andb_true_iff in Ht. destruct Ht as [T1 T2].
+  unfold run_events in *. cbn [fold_left]. apply IH.
+  - apply step_inv; assumption.
+  - rewrite step_flags. exact T2.
+Qed.
+
+(* on a tame history the view of the selected client is, at every moment,
+   the records it received so far that pass the flags of that moment *)
+Lemma view_partial_lemma : forall health f0 evs,
+  tame_events f0 evs = true ->
+  let d := run_events health (dbg_init f0) evs in
+  group_any (flags_after f0 evs) = true ->
+  d_flags d = flags_after f0 evs /\
+  c_filtered (sel_client d) =
+    filter_client_txs (flags_after f0 evs) health
+      (map fst (arrived (d_sel d) evs)) (map snd (arrived (d_sel d) evs)).
+Proof.
+  intros health f0 evs Ht. cbv zeta. intros Hact.
+  pose proof (run_flags health evs (dbg_init f0)) as Hf. cbn [dbg_init d_flags] in Hf.
+  assert (Hi : view_inv health (dbg_init f0)).
+  { unfold view_inv, dbg_init, sel_client. cbn. repeat split; reflexivity. }
+  pose proof (run_inv health evs (dbg_init f0) Hi Ht) as (_ & _ & Hv).
+  set (d := run_events health (dbg_init f0) evs) in *.
+  destruct (run_records health evs (dbg_init f0) (d_sel d)) as [Hm Hp].
+  replace (c_msgs (get_client (dbg_init f0) (d_sel d))) with (@nil msg) in Hm
+    by (destruct (d_sel d); reflexivity).
+  replace (c_parsed (get_client (dbg_init f0) (d_sel d))) with (@nil parsed) in Hp
+    by (destruct (d_sel d); reflexivity).
+  cbn [app] in Hm, Hp. fold d in Hm, Hp.
+  split; [exact Hf|]. rewrite Hf in Hv. rewrite (Hv Hact). unfold sel_client.
+  rewrite Hm, Hp. reflexivity.
+Qed.
+
+(* ... not on every history: a toggle that switches FilterCanceledTx off is
+   re-filtered with the FilterEmptyTx of before (FilterCanceledTxEnd takes it
+   off only behind ToolToggled): the empty transition stays hidden although
+   no flag hides it any more *)
+Lemma view_history_refuted_lemma :
+  exists health f0 evs,
+    let d := run_events health (dbg_init f0) evs in
+    group_any (flags_after f0 evs) = true /\
+    c_filtered (sel_client d) <>
+      filter_client_txs (flags_after f0 evs) health
+        (map fst (arrived (d_sel d) evs)) (map snd (arrived (d_sel d) evs)).
+Proof.
+  exists [], (mkFilters true false false true true false false),
+    [EArrive false (mkMsg 0 [1%N; 0%N] 1 0 0 1 true false false false [0] []) (mkParsed 1 1 [0] [] []);
+     EArrive false (mkMsg 1 [1%N; 0%N] 2 0 0 2 true false false false [0] []) (mkParsed 1 0 [] [] []);
+     EToggle (mkFilters false false false false true false false)].
+  cbv zeta. split; [reflexivity|]. vm_compute. discriminate.
+Qed.
+
+(* ---- cursor commands over a recomputed view *)
+
+Lemma index_of_from_In : forall l x k, In x l -> index_of_from k (Z.of_nat x) l <> (-1)%Z.
+Proof.
+  induction l as [|y r IH]; intros x k Hin; [contradiction|].
+  cbn [index_of_from]. destruct (Z.eqb (Z.of_nat x) (Z.of_nat y)) eqn:E; [lia|].
+  apply Z.eqb_neq in E. destruct Hin as [->|Hin]; [contradiction E; reflexivity|]. apply IH. exact Hin.
+Qed.
+
+(* in a recomputed view, "hidden" is "does not match" *)
+Lemma match_iff_listed : forall f h ms ps k,
+  (Z.ltb 0 k && Z.leb k (Z.of_nat (length ms)) && tx_matches f h ms ps (Z.to_nat (k - 1)))
+  = negb (sk (filter_client_txs f h ms ps) k).
+Proof.
+  intros f h ms ps k. unfold sk, is_skipped. cbn [andb].
+  destruct (Z.eqb (index_of (k - 1) (filter_client_txs f h ms ps)) (-1)) eqn:E; cbn [negb].
+  - destruct (Z.ltb 0 k) eqn:A; [|reflexivity].
+    destruct (Z.leb k (Z.of_nat (length ms))) eqn:B; [|reflexivity]. cbn [andb].
+    destruct (tx_matches f h ms ps (Z.to_nat (k - 1))) eqn:M; [exfalso|reflexivity].
+    apply Z.ltb_lt in A. apply Z.leb_le in B. apply Z.eqb_eq in E.
+    assert (Hin : In (Z.to_nat (k - 1)) (filter_client_txs f h ms ps)).
+    { unfold filter_client_txs. apply filter_In. split; [apply in_seq; lia|].
+      rewrite filter_tx_matches. exact M. }
+    apply (index_of_from_In _ _ 0) in Hin. rewrite Z2Nat.id in Hin by lia.
+    unfold index_of in E. contradiction.
+  - apply Z.eqb_neq in E. apply index_of_In in E. destruct E as [H0 Hin].
+    unfold filter_client_txs in Hin. apply filter_In in Hin. destruct Hin as [Hs Hf].
+    apply in_seq in Hs. rewrite filter_tx_matches in Hf. rewrite Hf.
+    replace (Z.ltb 0 k) with true by (symmetry; apply Z.ltb_lt; lia).
+    replace (Z.leb k (Z.of_nat (length ms))) with true by (symmetry; apply Z.leb_le; lia).
+    reflexivity.
+Qed.
+
+Lemma existsb_cursors_none : forall (m : Z -> bool) a b,
+  (forall k, (a <= k < b)%Z -> m k = false) -> existsb m (cursors_from a b) = false.
+Proof.
+  intros m a b H. destruct (existsb m (cursors_from a b)) eqn:E; [|reflexivity].
+  apply existsb_exists in E. destruct E as [k [Hin Hm]]. unfold cursors_from in Hin.
+  apply in_map_iff in Hin. destruct Hin as [i [<- Hi]]. apply in_seq in Hi.
+  rewrite H in Hm by lia. discriminate.
+Qed.
+
+(* hFilterTxCursor1 over a recomputed view lands on the FIRST matching
+   record in its direction: nothing hidden is shown, nothing matching is
+   passed over *)
+Lemma scan_exact_lemma : forall f h ms ps cur new (back : bool),
+  cursor_ok true (filter_client_txs f h ms ps) (length ms) cur = true ->
+  (if back return Prop then (new <= Z.of_nat (length ms))%Z else (1 <= new)%Z) ->
+  scan_codes f h ms ps new
+    (filter_cursor true (filter_client_txs f h ms ps) (length ms) cur new back) back = [].
+Proof.
+  intros f h ms ps cur new back Hok Hn.
+  apply cursor_ok_iff in Hok. destruct Hok as [Hr Hs].
+  set (fl := filter_client_txs f h ms ps) in *.
+  assert (Hfc : forall b, filter_cursor true fl (length ms) cur new b =
+                          filter_cursor_go (length ms + 2) fl (Z.of_nat (length ms)) cur new b)
+    by reflexivity.
+  rewrite Hfc.
+  unfold scan_codes. cbv zeta.
+  set (m := fun k : Z => Z.ltb 0 k && Z.leb k (Z.of_nat (length ms))
+                         && tx_matches f h ms ps (Z.to_nat (k - 1))).
+  assert (Hm : forall k, m k = negb (sk fl k)) by (intros k; apply match_iff_listed).
+  assert (HmU : forall k, (Z.ltb 0 k && Z.leb k (Z.of_nat (length ms))
+                           && tx_matches f h ms ps (Z.to_nat (k - 1))) = negb (sk fl k))
+    by (intros k; apply match_iff_listed).
+  destruct back.
+  - pose proof (fc_back fl (Z.of_nat (length ms)) cur (length ms + 2) new Hn ltac:(lia) ltac:(lia)) as H.
+    cbv zeta in H.
+    set (r := filter_cursor_go (length ms + 2) fl (Z.of_nat (length ms)) cur new true) in *.
+    destruct H as [[A B]|(A & B & C)].
+    + rewrite A. cbn [Z.ltb Z.leb andb app].
+      replace (Z.leb 1 0) with false by reflexivity. cbn [andb].
+      rewrite existsb_cursors_none; [reflexivity|].
+      intros k Hk. rewrite Hm, B by lia. reflexivity.
+    + rewrite (HmU r), B. cbn [negb].
+      rewrite andb_false_r. cbn [app].
+      replace (Z.leb 1 r && Z.leb r new) with true
+        by (symmetry; apply andb_true_iff; split; apply Z.leb_le; lia).
+      rewrite existsb_cursors_none; [reflexivity|].
+      intros k Hk. rewrite Hm, C by lia. reflexivity.
+  - pose proof (fc_fwd fl (Z.of_nat (length ms)) cur (length ms + 2) new Hn ltac:(lia) ltac:(lia)) as H.
+    cbv zeta in H.
+    set (r := filter_cursor_go (length ms + 2) fl (Z.of_nat (length ms)) cur new false) in *.
+    destruct H as [[A B]|(A & B & C)].
+    + rewrite (HmU r).
+      assert (Hr1 : (Z.ltb 0 r && negb (negb (sk fl r))) = false).
+      { rewrite A. destruct (sk fl cur) eqn:Es; cbn [negb]; [reflexivity|].
+        rewrite Es. cbn [negb]. apply andb_false_r. }
+      rewrite Hr1. cbn [app].
+      rewrite existsb_cursors_none; [reflexivity|].
+      intros k Hk. rewrite Hm, B; [reflexivity|].
+      destruct (Z.leb new r && Z.leb r (Z.of_nat (length ms))) eqn:E; [|lia].
+      apply andb_true_iff in E. destruct E as [E1 E2]. apply Z.leb_le in E2. lia.
+    + rewrite (HmU r), B. cbn [negb]. rewrite andb_false_r. cbn [app].
+      replace (Z.leb new r && Z.leb r (Z.of_nat (length ms))) with true
+        by (symmetry; apply andb_true_iff; split; apply Z.leb_le; lia).
+      rewrite existsb_cursors_none; [reflexivity|].
+      intros k Hk. rewrite Hm, C by lia. reflexivity.
+Qed.
+
+Lemma nav_step_target : forall f h ms ps cur c,
+  snd (nav_step f f true h ms ps (filter_client_txs f h ms ps) cur c) =
+  match nav_target ms cur c with
+  | Some (new, back) => filter_cursor true (filter_client_txs f h ms ps) (length ms) cur new back
+  | None => cur
+  end.
+Proof.
+  intros f h ms ps cur c. destruct c as [a|a|c1|id|]; cbn [nav_step nav_target]; cbv zeta.
+  - destruct (Z.leb _ _); reflexivity.
+  - destruct (Z.leb _ _); reflexivity.
+  - destruct (_ && _); reflexivity.
+  - destruct (Z.ltb _ _); reflexivity.
+  - rewrite refilter_flags_same. cbn [orb snd]. reflexivity.
+Qed.
+
+Lemma fresh_view_steps_lemma : forall f h ms ps cur c,
+  let fl := filter_client_txs f h ms ps in
+  cursor_ok true fl (length ms) cur = true ->
+  let cu := snd (nav_step f f true h ms ps fl cur c) in
+  match nav_target ms cur c with
+  | Some (new, back) => scan_codes f h ms ps new cu back = []
+  | None => cu = cur
+  end.
+Proof.
+  intros f h ms ps cur c. cbv zeta. intros Hok. rewrite nav_step_target.
+  pose proof Hok as Hok'. apply cursor_ok_iff in Hok'. destruct Hok' as [Hr _].
+  destruct c as [a|a|c1|id|]; cbn [nav_target]; cbv zeta.
+  - destruct (Z.leb _ _) eqn:E; [|reflexivity]. apply scan_exact_lemma; [exact Hok|lia].
+  - destruct (Z.leb _ _) eqn:E; [|reflexivity]. apply scan_exact_lemma; [exact Hok|cbv iota; lia].
+  - destruct (_ && _) eqn:E; [|reflexivity]. apply andb_true_iff in E. destruct E as [E1 _].
+    apply Z.ltb_lt in E1. apply scan_exact_lemma; [exact Hok|lia].
+  - destruct (Z.ltb _ _) eqn:E; [|reflexivity]. apply Z.ltb_lt in E.
+    apply scan_exact_lemma; [exact Hok|cbv iota; lia].
+  - apply scan_exact_lemma; [exact Hok|cbv iota; lia].
+Qed.
